@@ -3,6 +3,7 @@
 From Coq Require Import List ZArith Bool Sorted.
 From Ivv Require Import Timer.HeapModel Timer.HeapSpec Timer.HeapProofs.
 From Ivv Require Import Timer.RadixModel Timer.RadixSpec Timer.RadixArith Timer.RadixMem Timer.RadixProofs.
+From Ivv Require Import Gen.LeafTimer Timer.RadixLink Timer.RadixHazard.
 Import ListNotations.
 Local Open Scope Z_scope.
 
@@ -126,7 +127,15 @@ Theorem C05_radix_slots_distinct :
 Proof. exact (conj path_inj slot_inj). Qed.
 Print Assumptions C05_radix_slots_distinct.
 
-(* (c) REFINEMENT, for every history of guarded register / unregister / run-timers with arbitrary
+(* The verified range.  C int arithmetic is part of the model: a shift of an int by >= 32 (or `1 << c`
+   not representable) is the error value EShift, a signed overflow (++num_timers, 2 * index in
+   push_down) is EOverflow.  POP_BOUND = 2^30 is the largest population bound for which no int
+   computation of iv_timer.c can leave the range (C05_radix_int_range_refuted shows why 2^31 - 1 is
+   not provable).  The hypotheses `scripts_below POP_BOUND sc` / `ops_below POP_BOUND ops` say that
+   every timer id the history uses -- in top-level operations and in every handler script -- is
+   below 2^30; hence every population is (pigeonhole: RadixSim.num_below). *)
+
+(* (c) REFINEMENT, for every such history of guarded register / unregister / run-timers with arbitrary
    handler scripts: the radix-tree store never yields an error value, produces the same trace
    (return code, fired timers, num_timers, rat_depth, numobjs and the slot array read through the
    tree, after every operation) as the flat-map store, and ends in a state whose tree implements
@@ -134,7 +143,7 @@ Print Assumptions C05_radix_slots_distinct.
    transfer to the store with the real tree.  (One operation at a time from any related pair of
    states: RadixProofs.radix_step_refines.) *)
 Theorem C05_radix_refines_heap :
-  forall sc ops,
+  forall sc ops, scripts_below POP_BOUND sc -> ops_below POP_BOUND ops ->
     rtrace sc ops rinit = htrace sc ops init /\ length (htrace sc ops init) = length ops /\
     exists rs s, rrun_ops sc ops rinit = ROk rs /\ run_ops sc ops init = Ok s /\
                  Refines rs s /\ HeapInv s /\ batch s = [] /\
@@ -146,22 +155,22 @@ Print Assumptions C05_radix_refines_heap.
    free nodes between the computation of the slot pointer p and its uses in pull_up / push_down,
    no access goes through a freed node (nor NULL, nor a wild address): the outcome is ROk.  And no
    error value at all (use-after-free, wild or NULL access, bad or double free, type confusion,
-   fuel) is reachable by any history. *)
+   undefined shift, signed overflow, fuel) is reachable by any history in the verified range. *)
 Theorem C05_radix_no_dangling_slot :
   (forall rs s t, Refines rs s -> HeapInv s -> 1 <= tidx s t ->
      exists rs' s', runregister rs t = ROk rs' /\ unregister s t = Ok s' /\ Refines rs' s' /\ HeapInv s') /\
-  (forall sc ops e, rrun_ops sc ops rinit <> RCrash e).
+  (forall sc ops e, scripts_below POP_BOUND sc -> ops_below POP_BOUND ops -> rrun_ops sc ops rinit <> RCrash e).
 Proof. exact (conj radix_unregister_no_dangling radix_no_error). Qed.
 Print Assumptions C05_radix_no_dangling_slot.
 
-(* (b), (e) after every history: the invariant (every live index addressable, depth minimal:
-   rat_depth = 0 or 128^rat_depth <= num_timers < 128^(rat_depth+1)); the calloc'ed nodes that are
-   live are exactly the nodes reachable from timer_root (no leak, no dangling child pointer); an
-   empty store has depth 0 and nothing allocated; iv_timer_deinit on the tree as it is (populated
-   or not) ends with depth 0, every calloc'ed node freed -- exactly once, a second free being the
-   error value EDoubleFree -- and timer_root = NULL. *)
+(* (b), (e) after every such history: the invariant (every live index addressable, depth minimal:
+   rat_depth = 0 or 128^rat_depth <= num_timers < 128^(rat_depth+1), at most five levels); the
+   calloc'ed nodes that are live are exactly the nodes reachable from timer_root (no leak, no dangling
+   child pointer); an empty store has depth 0 and nothing allocated; iv_timer_deinit on the tree as
+   it is (populated or not) ends with depth 0, every calloc'ed node freed -- exactly once, a second
+   free being the error value EDoubleFree -- and timer_root = NULL. *)
 Theorem C05_radix_no_leak :
-  forall sc ops, exists rs,
+  forall sc ops, scripts_below POP_BOUND sc -> ops_below POP_BOUND ops -> exists rs,
     rrun_ops sc ops rinit = ROk rs /\ RInv rs /\
     (forall n, live_true rs n <-> n <> FIRST_LEAF /\ exists l, reach rs l n) /\
     (rnum rs = 0 -> rdepth rs = 0 /\ all_freed rs) /\
@@ -170,21 +179,37 @@ Proof. exact radix_no_leak. Qed.
 Print Assumptions C05_radix_no_leak.
 
 (* in every state satisfying the invariant: the depth part of the monitor run on implementation
-   traces holds; `index >> ((rat_depth + 1) * 7)` in iv_timer_get_node is defined (count <= 28) as
-   long as num_timers < 2^28 ... *)
+   traces holds, and the tree has at most five levels (rat_depth <= 4: every shift count
+   rat_depth * 7 and -- under the guard -- (rat_depth + 1) * 7 that is executed is <= 28) *)
 Theorem C05_radix_depth_bounds :
-  forall rs, RInv rs ->
-    depth_mon (rnum rs) (rdepth rs) = true /\ (rnum rs < 2 ^ 28 -> shift_count rs <= 28).
-Proof. exact (fun rs I => conj (radix_depth_mon_ok rs I) (radix_shift_defined rs I)). Qed.
+  forall rs, RInv rs -> depth_mon (rnum rs) (rdepth rs) = true /\ 0 <= rdepth rs <= 4.
+Proof. exact (fun rs I => conj (radix_depth_mon_ok rs I) (radix_depth_le_4 rs I)). Qed.
 Print Assumptions C05_radix_depth_bounds.
 
-(* ... but NOT for every int population: num_timers = 2^28 < INT_MAX satisfies the invariant only
-   with rat_depth = 4, and then the shift count is 35 >= 32 (undefined for a 32-bit int).  The
-   model computes in unbounded Z; populations >= 2^28 are outside the verified range. *)
-Theorem C05_radix_shift_refuted :
-  exists d n, 0 < d /\ P d <= n < P (d + 1) /\ n < 2 ^ 31 /\ 32 <= (d + 1) * SPLIT_BITS.
-Proof. exact radix_shift_undefined_witness. Qed.
-Print Assumptions C05_radix_shift_refuted.
+(* THE GROWTH TEST OF THE MODEL IS THE CODE.  LeafTimer.timer_growth_test is regenerated on every run by
+   gen/c2gallina.py from the condition of the first `if` of iv_timer_get_node in the current source
+   (None = a shift by a negative count or by >= 32 was executed).  For every depth and every int
+   index it is defined and equal to the model's test; RadixLink.growth_test_is_grow_test shows the two
+   functions equal everywhere.  Without the guard of commit 3da677a this fails at depth 4. *)
+Theorem C05_radix_growth_test_is_the_code :
+  forall d index, 0 <= d -> 0 <= index < 2 ^ 31 ->
+    LeafTimer.timer_growth_test d index = Some (growth_test_bool d index) /\
+    grow_test d index = Good (growth_test_bool d index).
+Proof. exact growth_test_is_the_code. Qed.
+Print Assumptions C05_radix_growth_test_is_the_code.
+
+(* what is NOT true.  (1) The guard is necessary: iv_timer_get_node with the unguarded test (the code
+   before 3da677a) executes an undefined shift for every index in every tree of depth 4 -- the depth
+   the invariant prescribes for num_timers = 2^28 < INT_MAX (C-level input: 2^28 + 1 registrations;
+   reproduced on the real library by the coordinator).  (2) The verified range cannot be extended to
+   INT_MAX: push_down evaluates 2 * index, which overflows an int for every index >= 2^30, i.e. when
+   a timer at a heap index >= 2^30 other than the last one is unregistered. *)
+Theorem C05_radix_int_range_refuted :
+  (forall rs index, rdepth rs = 4 -> rget_node_var false rs index = Bad EShift) /\
+  (P 4 <= 2 ^ 28 < P 5 /\ 2 ^ 28 < 2 ^ 31) /\
+  (forall f rs index i, POP_BOUND <= index -> rpush_down (S f) rs index i = Bad EOverflow).
+Proof. exact (conj unguarded_shift_refuted (conj depth4_population push_down_overflow_refuted)). Qed.
+Print Assumptions C05_radix_int_range_refuted.
 
 (* non-vacuity: 130 registrations (the tree grows to depth 1 at index 128 and allocates a second
    leaf), then 4 unregistrations (first, interior, last, root) -- the third takes num_timers from 128
